@@ -230,6 +230,14 @@ class Folder:
                 else:
                     out.append(self.fold(e))
             return out
+        if isinstance(node, ast.Dict) and all(k is not None for k in node.keys):
+            out_d = {}
+            for k_, v_ in zip(node.keys, node.values):
+                kk = self.fold(k_)
+                if isinstance(kk, list):
+                    raise Unfoldable("unhashable dictionary key")
+                out_d[kk] = self.fold(v_)
+            return out_d
         if isinstance(node, (ast.ListComp, ast.GeneratorExp)) and len(node.generators) == 1 and not node.generators[0].is_async:
             g = node.generators[0]
             seq = self.fold(g.iter)
@@ -377,6 +385,11 @@ class Folder:
         if isinstance(node, ast.Subscript):
             base = self.fold(node.value)
             sl = node.slice
+            if isinstance(base, dict):
+                key = self.fold(sl)
+                if isinstance(key, list) or key not in base:
+                    raise Unfoldable("dictionary key")
+                return base[key]
             if isinstance(sl, ast.Tuple) and len(sl.elts) == 2 and not (isinstance(sl.elts[0], ast.Constant) and sl.elts[0].value is Ellipsis) and isinstance(base, list) and base and isinstance(base[0], list):
                 # matrix[r, c] with r, c integers or slices
                 def part(e):
@@ -475,6 +488,14 @@ class Folder:
                 if isinstance(v, list) and v and isinstance(v[0], list):
                     return [[row[j] for row in v] for j in range(len(v[0]))]
                 raise Unfoldable("transpose of a non-matrix")
+            if m == "get" and 1 <= len(node.args) <= 2 and not node.keywords:
+                d_ = self.fold(node.func.value)
+                if isinstance(d_, dict):
+                    key = self.fold(node.args[0])
+                    if isinstance(key, list):
+                        raise Unfoldable("dictionary key")
+                    return d_[key] if key in d_ else (self.fold(node.args[1]) if len(node.args) == 2 else None)
+                raise Unfoldable("get on a non-dictionary")
             if m == "tolist" and not node.args:
                 v = self.fold(node.func.value)
                 return PySeq(v) if isinstance(v, list) else v
